@@ -7,6 +7,7 @@ import HC.Proofs.Growth
 import HC.Proofs.HashReq
 import HC.Proofs.ReplicaReopen
 import HC.Proofs.CreateTotal
+import HC.Proofs.BlockUpgrade
 /-!
 # C03 — any honest proof is accepted and replicas converge to the writer's data
 
@@ -443,5 +444,25 @@ theorem created_block_value (c : Core) (d : Disk) (b : Codec.RequestBlock) (hash
         have hp := Option.some.inj this
         rw [← hp]
         exact ⟨_, rfl, rfl, rfl⟩
+
+/-- **block + upgrade in one proof (tree level, block below the replica's length).**  For every replica state reached by
+    honest replication (`RepRAt`), every block index `i < m` with the node count of the replica's own `missing_nodes`
+    query and every upgrade `m → n` of the writer's log: the proof made of the block's bytes, its reference sibling path,
+    the honest upgrade nodes and the writer's signature for `n` passes `verify_proof`; the changeset holds the reference
+    roots of `n` (`Inv`), is marked upgraded with that signature and is commitable.  (`verify_tree`'s root waits in
+    `verify_upgrade`'s queue as its extra node; no upgrade node shares its index — `BlockUpgrade.verifyUpgrade_extra`
+    — so it is reported as not consumed and compared with the stored ancestor.)  The byte offset of the block under
+    the merged roots and the commit at core level for this shape are covered by the run, as are blocks of the new
+    part. -/
+theorem honest_block_with_upgrade_accepted (C : Crypto) (hC : TreeStore.HashWF C) (bs : Array Bytes) (m n : Nat) (c : Core) (d : Disk)
+    (held : Nat → Bool) (h : Growth.RepRAt C bs m c d held) (hm0 : 0 < m) (hmn : m < n) (hn : n ≤ bs.size) (us : List (Nat × Nat))
+    (hup : Growth.Up m 0 (RefTree.rootsStack n).reverse us) (sig : Bytes) (hsl : sig.length = 64)
+    (hver : C.verify c.publicKey (Growth.signableAt C bs n c.tree.fork) sig = true) (i : Nat) (hi : i < m) :
+    ∃ cs', c.tree.verifyProof C d.tree
+        ⟨c.tree.fork, some ⟨i, bs.getD i [], Complete.sibPath C bs 0 i (c.tree.missingNodes d.tree (2 * i))⟩, none, none,
+          some ⟨m, n - m, us.map (fun p => RefTree.nodeAt C bs p.1 p.2), [], sig⟩⟩ c.publicKey = .ok cs'
+      ∧ Growth.Inv C bs c.tree d.tree cs' n ∧ cs'.upgraded = true ∧ cs'.signature = some sig ∧ cs'.fork = c.tree.fork
+      ∧ c.tree.commitable cs' = true :=
+  BlockUpgrade.honest_old_block_upgrade_accepted C hC bs m n c d held h hm0 hmn hn us hup sig hsl hver i hi
 
 end HC.C03
